@@ -48,6 +48,7 @@ struct State {
   char kind = 'M';
   std::string content;      // file content / link target
   uint64_t sec = 0, nsec = 0;
+  bool sparse = false;
   bool hasT1 = false;
   std::string t1;
   uint64_t t1sec = 0, t1nsec = 0;
@@ -57,8 +58,10 @@ bool parseState(const std::string& s, State& st) {
   auto f = vh::split(s, ':');
   if (f.size() == 1 && f[0] == "M") { st.kind = 'M'; return true; }
   if (f.size() != 4 && f.size() != 7) return false;
-  if (f[0] != "F" && f[0] != "D" && f[0] != "L") return false;
+  if (f[0] != "F" && f[0] != "D" && f[0] != "L" && f[0] != "S") return false;
   st.kind = f[0][0];
+  // "S": a regular file like "F", written SPARSELY (4 KiB blocks of zeros become holes)
+  if (st.kind == 'S') { st.kind = 'F'; st.sparse = true; }
   st.content = vh::hexDecode(f[1]);
   st.sec = strtoull(f[2].c_str(), nullptr, 16);
   st.nsec = strtoull(f[3].c_str(), nullptr, 16);
@@ -90,6 +93,21 @@ bool writeAll(int fd, const std::string& c) {
   return true;
 }
 
+bool gSparse = false;   // set by materialise() for the file being written
+
+// like writeAll on a fresh / truncated file, but block-aligned runs of zero bytes are left as holes
+bool writeSparse(int fd, const std::string& c) {
+  const size_t B = 4096;
+  for (size_t off = 0; off < c.size(); off += B) {
+    size_t n = std::min(B, c.size() - off);
+    bool zero = true;
+    for (size_t i = 0; i < n; i++) if (c[off + i] != 0) { zero = false; break; }
+    if (zero) continue;
+    if (::pwrite(fd, c.data() + off, n, (off_t)off) != (ssize_t)n) return false;
+  }
+  return ::ftruncate(fd, (off_t)c.size()) == 0;
+}
+
 bool stamp(const std::string& p, uint64_t sec, uint64_t nsec) {
   struct timespec ts[2];
   ts[0].tv_sec = (time_t)sec; ts[0].tv_nsec = (long)nsec;
@@ -103,14 +121,14 @@ bool putFile(const std::string& p, const std::string& c, uint64_t sec, uint64_t 
   if (keep && exists && S_ISREG(sb.st_mode)) {
     int fd = ::open(p.c_str(), O_WRONLY | O_TRUNC);
     if (fd < 0) return false;
-    bool ok = writeAll(fd, c);
+    bool ok = gSparse ? writeSparse(fd, c) : writeAll(fd, c);
     ::close(fd);
     return ok && stamp(p, sec, nsec);
   }
   std::string tmp = p + ".tmp";
   int fd = ::open(tmp.c_str(), O_WRONLY | O_CREAT | O_TRUNC, 0644);
   if (fd < 0) return false;
-  bool ok = writeAll(fd, c);
+  bool ok = gSparse ? writeSparse(fd, c) : writeAll(fd, c);
   ::close(fd);
   if (exists && S_ISDIR(sb.st_mode)) ::rmdir(p.c_str());
   if (::rename(tmp.c_str(), p.c_str()) != 0) return false;
@@ -126,7 +144,7 @@ bool materialise(const State& st, bool keep) {
   else removeAny(t1);
   switch (st.kind) {
   case 'M': removeAny(p); return true;
-  case 'F': return putFile(p, st.content, st.sec, st.nsec, keep);
+  case 'F': { gSparse = st.sparse; bool ok = putFile(p, st.content, st.sec, st.nsec, keep); gSparse = false; return ok; }
   case 'D':
     if (exists && !S_ISDIR(sb.st_mode)) { ::unlink(p.c_str()); exists = false; }
     if (!exists && ::mkdir(p.c_str(), 0755) != 0) return false;
